@@ -20,13 +20,14 @@ violation is not defined by the reference model.
 from . import core
 
 
-def hidden_shape(obj, skip=()):
+def hidden_shape(obj, skip=(), scalars=False, now=None):
     """Generic fingerprint of the containers an implementation object holds, for canonical keys.
 
     A canonical key must separate states with different futures.  The fields a check knows about are in its key explicitly; this
     adds, for EVERY attribute of `obj` that is a container, its size and (for dicts/sets of plain values) its keys, and for every
     other attribute whether it is None - so that a lookup table, cache or index the library builds lazily (or will build after a
-    later change) keeps two histories apart when it differs.  Finer keys only cost time, they never hide a state."""
+    later change) keeps two histories apart when it differs.  With scalars=True plain values are included too, points in time
+    relative to `now`.  Finer keys only cost time, they never hide a state."""
     out = []
     for name, v in sorted(vars(obj).items()):
         if name in skip:
@@ -46,6 +47,10 @@ def hidden_shape(obj, skip=()):
             out.append((name, "l", len(v)))
         elif v is None:
             out.append((name, "n"))
+        elif scalars and isinstance(v, (int, float, str, bool)):
+            out.append((name, "v", v))
+        elif scalars and now is not None and hasattr(v, "utcoffset") and hasattr(now, "utcoffset"):
+            out.append((name, "t", v - now))        # a point in time counts relative to the (virtual) present
     return tuple(out)
 
 
